@@ -460,7 +460,7 @@ pub fn merge<ID: Clone + Eq + Hash, C: Conditions>(
 /// `PartialOrd` implementation of `Access` can not be used here: it answers "can this access
 /// fulfil that request" and is not antisymmetric as soon as conditions are involved (two distinct
 /// access values can each be less than the other, or neither of them is).
-fn is_lower_access<C: Conditions>(a: &Access<C>, b: &Access<C>) -> bool {
+pub(crate) fn is_lower_access<C: Conditions>(a: &Access<C>, b: &Access<C>) -> bool {
     match a.level.cmp(&b.level) {
         Ordering::Less => true,
         Ordering::Greater => false,
